@@ -315,6 +315,19 @@ fn check_loop(r: &Report, case: &loopdrv::LoopCase, index: u64) {
             return;
         }
     }
+    // the statistics divide by the reported sample size: it must be the number of iterations
+    // the recorded samples actually ran (also when a time budget ends the run during tuning)
+    if let Some(sec) = used.first() {
+        let actual = sec.calls().len();
+        if used.iter().any(|s| s.calls().len() != actual) || rep.sample_size as usize != actual {
+            r.violation(Violation {
+                sig: json!({"check":"loop","class":"divisor","tuned": tuned, "max_time": case.max_time_ns.is_some()}),
+                text: format!("{}: the recorded samples ran {:?} iterations each but the statistics divide by a sample size of {}", case.describe(), used.iter().map(|s| s.calls().len()).collect::<Vec<_>>(), rep.sample_size),
+                case: case_json(),
+            });
+            return;
+        }
+    }
     // allocation figures of a sample are those of its own timed section: a stored
     // tally that the section did not produce (e.g. left over from a discarded
     // tuning round) would be attributed to this sample by the statistics
@@ -411,13 +424,20 @@ fn loop_cases(thorough: bool) -> Vec<loopdrv::LoopCase> {
                     if s.is_none() && script.iter().any(|c| *c < 1000) {
                         continue;
                     }
+                    // a max_time budget that runs out in the middle of tuning (tuned sizes only)
+                    let budgets: &[Option<u64>] = if s.is_none() { &[None, Some(20), Some(60)] } else { &[None] };
                     for overhead in [0u64, 3] {
                         for alloc in [0usize, 2, 5] {
                             for counters in 0..6 {
+                              for &budget in budgets {
                                 if !thorough && counters >= 4 && alloc != 0 {
                                     continue;
                                 }
+                                if !thorough && budget.is_some() && (counters >= 2 || overhead != 0) {
+                                    continue;
+                                }
                                 let mut c = LoopCase::basic(entry, ishape, oshape);
+                                c.max_time_ns = budget;
                                 c.sample_count = Some(n);
                                 c.sample_size = s;
                                 c.cost[SITE_CALL] = script.clone();
@@ -454,6 +474,7 @@ fn loop_cases(thorough: bool) -> Vec<loopdrv::LoopCase> {
                                     continue;
                                 }
                                 v.push(c);
+                              }
                             }
                         }
                     }
